@@ -193,10 +193,12 @@ void _ZNK7abigail10comparison10class_diff17second_class_declEv(void *sret, void 
 void *_ZNK7abigail10comparison19class_or_union_diff20deleted_data_membersB5cxx11Ev(void *d) { return &deleted_m; }
 void *_ZNK7abigail10comparison19class_or_union_diff21inserted_data_membersB5cxx11Ev(void *d) { return &inserted_m; }
 u64 _ZN7abigail2ir22get_data_member_offsetESt10shared_ptrINS0_9decl_baseEE(void *sp) { void *m = ((sp_t *)sp)->p; return m == (void *)mem_obj[0] ? mem_off[0] : mem_off[1]; }
+static _Bool bnd_is_fn;
 u8 *__dynamic_cast(u8 *p, u8 *src, u8 *dst, u64 hint)
 {
   if (dst == (u8 *)&_ZTIN7abigail10comparison9enum_diffE) return 0;                                   /* the diff is a class diff */
-  if (dst == (u8 *)&_ZTIN7abigail5suppr16type_suppression15insertion_range21fn_call_expr_boundaryE) return 0;   /* boundaries are integers */
+  if (dst == (u8 *)&_ZTIN7abigail5suppr16type_suppression15insertion_range21fn_call_expr_boundaryE) return bnd_is_fn ? p : 0;   /* boundaries are integers, except in h_eval_boundary_fn */
+  if (dst == (u8 *)&_ZTIN7abigail5suppr16type_suppression15insertion_range16integer_boundaryE) return bnd_is_fn ? 0 : p;
   return p;
 }
 
@@ -232,5 +234,59 @@ void h_insertion_ranges(void)
   PROP(!(r && !all_in), "C24-ranges-every-insertion-inside: ... nor a change that inserts a member outside all the given ranges");
   PROP(r || has_deleted || cls_size[0] > cls_size[1] || !all_in, "C24-ranges-suppress-when-satisfied: insertions that all lie inside the ranges, without deletion or shrinking, are suppressed");
   COVER(r && ni == 2); COVER(!r && ni == 2 && !has_deleted && cls_size[0] <= cls_size[1]); COVER(r && ni == 0);
+  WITNESS_END();
+}
+
+/* ---------------------------------------------------------------------------------------------------------------
+   type_suppression::insertion_range::eval_boundary on a function-call boundary (offset_of(m) / offset_after(m) as
+   the INI reader hands them over: ANY function name, 0, 1 or 2 arguments) against a class with 0..2 data members:
+   C25 - no argument count makes it read an element the argument vector does not have; C24 - the boundary evaluates
+   only for offset_of/offset_after with exactly one argument naming a laid-out member, to that member's offset
+   (offset_after: the next member's offset, or offset + size for the last one). */
+static u64 expr_obj[4];
+static vstr_t fn_name_s, arg_s[2], dm_name[2]; static istr_t dm_name_i[2];
+static struct { vstr_t *b, *e, *cap; } args_v;
+static struct { sp_t *b, *e, *cap; } dms_v; static sp_t dm_elems[2];
+static _Bool dm_laid_out[2], has_next; static u64 next_off, dm_type_size;
+static void *type_vt[12], *dm_vt[4];   /* var_decl reaches its virtual base decl_base through vptr[-3] (offset 0 here) */
+static u64 type_size_of(void *t) { return dm_type_size; }
+static int dm_index(void *m) { return m == (void *)mem_obj[0] ? 0 : 1; }
+vstr_t *_ZNK7abigail3ini18function_call_expr8get_nameB5cxx11Ev(void *e) { return &fn_name_s; }
+void *_ZN7abigail3ini18function_call_expr13get_argumentsB5cxx11Ev(void *e) { return &args_v; }
+void *_ZNK7abigail3ini18function_call_expr13get_argumentsB5cxx11Ev(void *e) { return &args_v; }
+void *_ZNK7abigail2ir14class_or_union16get_data_membersEv(void *c) { return &dms_v; }
+u8 _ZN7abigail2ir27get_data_member_is_laid_outERKNS0_8var_declE(void *m) { return dm_laid_out[dm_index(m)]; }
+void *_ZNK7abigail2ir9decl_base8get_nameEv(void *d) { return &dm_name_i[dm_index(d)]; }
+u64 _ZN7abigail2ir22get_data_member_offsetESt10shared_ptrINS0_8var_declEE(void *sp) { return mem_off[dm_index(((sp_t *)sp)->p)]; }
+u8 _ZN7abigail2ir27get_next_data_member_offsetERKSt10shared_ptrINS0_14class_or_unionEERKS1_INS0_8var_declEERm(void *c, void *m, u64 *v)
+{ if (has_next) *v = next_off; return has_next; }
+void _ZNK7abigail2ir8var_decl8get_typeEv(void *sret, void *m) { sp_t *r = sret; r->p = t_obj; r->c = 0; }
+
+void h_eval_boundary_fn(void)
+{
+  bnd_is_fn = 1;
+  u32 fsel = nondet_u32(), na = nondet_u32(), nm = nondet_u32(); __CPROVER_assume(fsel < 3 && na <= 2 && nm <= 2);
+  vs_make(&fn_name_s, fsel == 0 ? "offset_of" : fsel == 1 ? "offset_after" : "sizeof");
+  _Bool arg_m = nondet_bool();
+  vs_make(&arg_s[0], arg_m ? "m" : "z"); vs_make(&arg_s[1], "n");
+  args_v.b = na ? &arg_s[0] : (vstr_t *)0; args_v.e = na ? &arg_s[0] + na : (vstr_t *)0; args_v.cap = args_v.e;     /* an empty vector owns no storage */
+  for (int i = 0; i < 2; i++) {
+    vs_make(&dm_name[i], i ? "n" : "m"); dm_name_i[i].raw = &dm_name[i];
+    dm_vt[0] = 0; mem_obj[i][0] = (u64)&dm_vt[3];
+    dm_elems[i].p = mem_obj[i]; dm_elems[i].c = 0; dm_laid_out[i] = nondet_bool();
+    mem_off[i] = nondet_u64(); __CPROVER_assume(mem_off[i] <= 4096);
+  }
+  dms_v.b = nm ? &dm_elems[0] : (sp_t *)0; dms_v.e = nm ? &dm_elems[0] + nm : (sp_t *)0; dms_v.cap = dms_v.e;
+  has_next = nondet_bool(); next_off = nondet_u64(); dm_type_size = nondet_u64(); __CPROVER_assume(next_off <= 8192 && dm_type_size <= 4096);
+  type_vt[7] = (void *)type_size_of; t_obj[0] = (u64)type_vt;
+  void *b = w_fn_boundary((void *)expr_obj);
+  u64 v = 12345;
+  u8 r = w_eval_boundary(b, (void *)cls_obj[0], &v);
+  int found = fsel < 2 && na == 1 && arg_m && nm >= 1 && dm_laid_out[0];
+  PROP((r != 0) == found, "C24-boundary-evaluates-iff: a function-call boundary evaluates exactly for offset_of/offset_after with one argument naming a laid-out data member");
+  if (r && found)
+    PROP(v == (fsel == 0 ? mem_off[0] : has_next ? next_off : mem_off[0] + dm_type_size),
+         "C24-boundary-value: offset_of(m) is m's offset; offset_after(m) is the next member's offset, or m's offset plus its size");
+  COVER(r && fsel == 1 && !has_next); COVER(!r && na == 0 && fsel == 0); COVER(!r && na == 2); COVER(r && fsel == 0);
   WITNESS_END();
 }
